@@ -235,4 +235,6 @@ func genDriverCases(seed uint64, n int) {
 		}
 		emitCase(&id, "m", uint32(rm.Pick(0, 1, 2, 40, 100, 1000, 5000, 4294967295)), ts)
 	}
+	// 4. the per-sample fetch (G lines, see fetchgen.go)
+	genFetchCases(seed, n/3)
 }
